@@ -94,6 +94,7 @@ def checkEmit (a : Acc) (h : Nat) (x : Int) (obs : List Rec) : Option String := 
 def stepCheck (a : Acc) (op : Rec) (obs : List Rec) : Acc :=
   if a.bad.isSome then a else
   if obs.any (·.name == "panic") then { a with bad := some "panic" } else
+  if obs.any (·.name == "logger2") then { a with bad := some "a second registered logger was not handed every emission exactly once" } else
   match op.name with
   | "mk" => { a with kinds := a.kinds ++ [op.nat "kind"] }
   | "sub" =>
